@@ -1953,6 +1953,9 @@ func decodeExtendedIpv4TunnelIngress(data *[]byte) (SFlowExtendedIpv4TunnelIngre
 	rec := SFlowExtendedIpv4TunnelIngressRecord{}
 	var fdf SFlowFlowDataFormat
 
+	if len(*data) < 40 {
+		return rec, errors.New("extended IPv4 tunnel ingress record too small")
+	}
 	*data, fdf = (*data)[4:], SFlowFlowDataFormat(binary.BigEndian.Uint32((*data)[:4]))
 	rec.EnterpriseID, rec.Format = fdf.decode()
 	*data, rec.FlowDataLength = (*data)[4:], binary.BigEndian.Uint32((*data)[:4])
